@@ -2,25 +2,29 @@
 From Ark Require Import Model.Base.
 
 Inductive gotype :=
-| TScalar                       (* bool, ints, floats, complex, uintptr, unsafe.Pointer is not used by components *)
-| TPtr | TSlice | TMap | TChan | TIface | TString | TFunc
+| TScalar                       (* bool, ints, floats, complex, uintptr *)
+| TPtr | TSlice | TMap | TChan | TIface | TString | TFunc | TUnsafePtr
 | TStruct (fields : list gotype)
 | TArray (n : nat) (elem : gotype).
 
-(** isTrivial (util.go): false for pointer, slice, map, chan, interface, string themselves; structs and
-    arrays are inspected recursively; everything else (incl. func, which the code does not list) is trivial. *)
+(** isTrivial (util.go): false for pointer, slice, map, chan, interface, string, func and unsafe.Pointer
+    themselves; structs and arrays are inspected recursively; everything else is trivial.
+    (func and unsafe.Pointer were missing from the code's list until fix 65b60f3: a component holding only a
+    closure was moved without write barriers and the collector lost it.) *)
 Fixpoint is_trivial (t : gotype) : bool :=
   match t with
-  | TPtr | TSlice | TMap | TChan | TIface | TString => false
+  | TPtr | TSlice | TMap | TChan | TIface | TString | TFunc | TUnsafePtr => false
   | TStruct fs => (fix all (l : list gotype) : bool :=
                      match l with [] => true | f :: r => (is_trivial f && all r)%bool end) fs
   | TArray _ e => is_trivial e
-  | TScalar | TFunc => true
+  | TScalar => true
   end.
 
-(** The kinds the garbage collector must see as pointers and that isTrivial recognises. *)
+(** The kinds the garbage collector must see as pointers: every Go kind whose representation contains a
+    pointer word (reflect.Kind: Pointer, Slice, Map, Chan, Interface, String, Func, UnsafePointer). *)
 Inductive pointerish : gotype -> Prop :=
 | P_ptr : pointerish TPtr | P_slice : pointerish TSlice | P_map : pointerish TMap
 | P_chan : pointerish TChan | P_iface : pointerish TIface | P_string : pointerish TString
+| P_func : pointerish TFunc | P_unsafe : pointerish TUnsafePtr
 | P_field : forall fs f, In f fs -> pointerish f -> pointerish (TStruct fs)
 | P_elem : forall n e, pointerish e -> pointerish (TArray n e).
